@@ -1179,7 +1179,7 @@ def _flush_loop(st, state):
                 if not (isinstance(base, ast.Name) and depth >= 1):
                     return False
                 v = state.env.get(base.id)
-                if isinstance(v, (FieldObj, ListObj)) or v is None:
+                if isinstance(v, FieldObj) or (isinstance(v, ListObj) and v.name == "results") or v is None:
                     return False
         if isinstance(n, ast.Call) and isinstance(n.func, ast.Attribute) and n.func.attr in ("step", "append", "add_res", "set", "copy", "extend"):
             # appending to an untracked local list (the data dump built element by element) is no effect on the tracked state
